@@ -139,7 +139,11 @@ def d3(chk, prog):
     chk.clause("D3", "aggregation binding: weight = SUM, depth = WAVG, gene = ordered distinct meaningful names; segment_none; segment_mean")
     fi = prog.fn(TF)
     tb = Table(chk, "aggregation", "transfer_fields on 8 symbolic bins / 2 segments", fi.loc(), fi.qn)
-    for wkind in ("positive", "zero-second", "absent"):
+    # a gene whose bins are interrupted by another gene's bins (nested / interleaved genes) is still listed once;
+    # a segment over antitarget / unnamed bins only has no gene of its own (not its neighbour's)
+    layouts = [(["B", "Antitarget", "A", "B", "C", "-", "D", "C"], ["B,A", "C,D"]), (["B", "Antitarget", "A", "B", "-", "Antitarget", ".", "CGH"], ["B,A", "-"]),
+               (["-", "Antitarget", "Antitarget", "-", "C", "-", "D", "C"], ["-", "C,D"])]
+    for wkind, (genes, wantg) in itertools.product(("positive", "zero-second", "absent"), layouts):
         W.reset()
         n = 8
         s = [Term.sym(f"s{i}", 0, INF, True) for i in range(n)]
@@ -156,8 +160,6 @@ def d3(chk, prog):
                     t = Term.sym(f"w{i}", 0, INF, positive=True)
                     t.lo = 1e-9
                     w.append(t)
-        # a gene whose bins are interrupted by another gene's bins (nested / interleaved genes) is still listed once
-        genes = ["B", "Antitarget", "A", "B", "C", "-", "D", "C"]
         rows = [dict(chromosome="chr1", start=s[i], end=e[i], gene=genes[i], log2=Term.sym(f"v{i}"), depth=d[i]) for i in range(n)]
         if w is not None:
             for i in range(n):
@@ -188,7 +190,6 @@ def d3(chk, prog):
         c = out.data.cols
         groups = [[0, 1, 2, 3], [4, 5, 6, 7]]
         ok = seen.get("args", (None, None))[0] == "outer" and seen["args"][1] is False and seen["args"][3] is segs_frame
-        wantg = ["B,A", "C,D"]
         for j, grp in enumerate(groups):
             if w is None:
                 ww = Term.const(len(grp))
@@ -205,7 +206,7 @@ def d3(chk, prog):
         sp = seen.get("span_at_aggregation", (None, None))
         stretched_first = sp[0] is not None and same(sp[0], s[0]) and same(sp[1], e[7])
         ok = ok and stretched_first
-        tb.cell(ok, dict(weights=wkind, iter_slices=repr(seen.get("args", ())[:2]), segments_stretched_before_aggregation=stretched_first, got={k: [repr(x) for x in v.v] for k, v in c.items() if k in ("start", "end", "weight", "depth", "gene")}))
+        tb.cell(ok, dict(weights=wkind, bin_genes=genes, iter_slices=repr(seen.get("args", ())[:2]), segments_stretched_before_aggregation=stretched_first, got={k: [repr(x) for x in v.v] for k, v in c.items() if k in ("start", "end", "weight", "depth", "gene")}))
     tb.done("segment weight / depth / gene / stretched endpoints are not the stated aggregates of the bins the segment spans")
 
     fn = prog.fn("cnvlib.segmentation.none.segment_none")
@@ -254,18 +255,53 @@ def d3(chk, prog):
     tb3.done("segment_mean is not the weight-averaged log2 (mean without usable weights)")
 
 
+def d3c(chk, prog):
+    chk.clause("D3c", "transfer_fields as the whole-array methods (flasso, hmm*) call it: bins of several chromosomes, an edge chromosome wholly filtered out")
+    fi = prog.fn(TF)
+    tb = Table(chk, "chromosome-span", "transfer_fields on a 3-chromosome bin table: every segment stays inside its own chromosome's bins, positive length", fi.loc(), fi.qn)
+    chroms = ["chr1", "chr2", "chr3"]
+    # chr3's coordinates are smaller than chr2's (chrY after chrX): a segment stretched to another chromosome's bins can even end before it starts
+    span = {"chr1": (1000, 9000), "chr2": (5000, 8000), "chr3": (100, 900)}
+    for dropped in ((), ("chr3",), ("chr1",), ("chr2",), ("chr1", "chr3")):
+        W.reset()
+        rows = []
+        for c in chroms:
+            lo, hi = span[c]
+            mid = (lo + hi) // 2
+            rows += [dict(chromosome=c, start=lo, end=lo + 50, gene="a", log2=Term.sym(f"v{c}0"), depth=1, weight=1), dict(chromosome=c, start=mid, end=mid + 50, gene="b", log2=Term.sym(f"v{c}1"), depth=1, weight=1),
+                     dict(chromosome=c, start=hi - 50, end=hi, gene="c", log2=Term.sym(f"v{c}2"), depth=1, weight=1)]
+        bins = make_ga("CopyNumArray", rows, {"sample_id": "S"}, exact=True)
+        kept = [c for c in chroms if c not in dropped]
+        segs = make_ga("CopyNumArray", [dict(chromosome=c, start=span[c][0], end=span[c][1], gene="-", log2=Term.sym(f"L{c}"), probes=3) for c in kept], {"sample_id": "S"}, exact=True)
+        model = Model()
+        model.prims["skgenome.intersect.iter_slices"] = lambda it, table, other, mode, keep_empty, kept=kept: [[3 * chroms.index(c) + j for j in range(3)] for c in kept]
+        model.ext["pd.unique"] = lambda it, v: _unique(v)
+        it = Interp(prog, model)
+        out = tb.guard(lambda: it.run(fi.qn, [segs, bins]), f"bins of {dropped or 'no chromosome'} all filtered out")
+        if out is None:
+            continue
+        c = out.data.cols
+        got = [(c["chromosome"].v[i], c["start"].v[i], c["end"].v[i]) for i in range(out.data.n)]
+        ok = [g[0] for g in got] == kept
+        for ch, s0, e0 in got:
+            s0, e0 = T(s0), T(e0)
+            ok = ok and s0.is_const() and e0.is_const() and ch in span and span[ch][0] <= s0.cval() < e0.cval() <= span[ch][1]
+        tb.cell(ok, dict(wholly_filtered=list(dropped), segments=[(ch, repr(a), repr(b)) for ch, a, b in got], bin_span={k: span[k] for k in kept}))
+    tb.done("a whole-array method's first / last segment is stretched to the bins of another chromosome (the one whose bins were all filtered out): it leaves its chromosome's span and can end before it starts")
+
+
 def d3b(chk, prog):
     chk.clause("D3b", "the bins that reach the segmenter are exactly those surviving every enabled filter (low coverage, outliers, weight)")
     fi = prog.fn("cnvlib.segmentation._do_segmentation")
     tb = Table(chk, "filter-cascade", "_do_segmentation: rows handed to the segmenter (skip_low x skip_outliers x min_weight)", fi.loc(), fi.qn)
-    kinds = ["normal", "lowcov", "outlier", "zero-weight", "light", "normal2"]
+    kinds = ["normal", "lowcov", "outlier", "zero-weight", "light", "at-min-weight", "normal2"]        # a weight equal to min_weight is not below it
     for skip_low, skip_out, min_weight, low_by in itertools.product([False, True], [0, 10], [0, Fr(1, 2)], ["placeholder log2", "zero depth"]):
         W.reset()
         rows = []
         for i, k in enumerate(kinds):
             # a null-coverage bin: the placeholder log2 (< -15), or depth 0 with an ordinary log2
             lg = Term.sym(f"v{i}", -INF, -16) if (k == "lowcov" and low_by == "placeholder log2") else Term.sym(f"v{i}", -10, 10)
-            w = {"zero-weight": Fr(0), "light": Fr(1, 4)}.get(k, Fr(9, 10))
+            w = {"zero-weight": Fr(0), "light": Fr(1, 4), "at-min-weight": Fr(1, 2)}.get(k, Fr(9, 10))
             rows.append(dict(chromosome="chr1", start=i * 100, end=i * 100 + 100, gene=k, log2=lg, depth=(0 if (k == "lowcov" and low_by == "zero depth") else Term.sym(f"d{i}", 1, INF)), weight=w))
         arr = make_ga("CopyNumArray", rows, {"sample_id": "S"}, index="any", exact=True)
         model = Model()
@@ -502,6 +538,7 @@ def run(chk):
     d1(chk, prog)
     d2(chk, prog)
     d3(chk, prog)
+    d3c(chk, prog)
     d3b(chk, prog)
     d4(chk, prog)
     d4b(chk, prog)
@@ -510,13 +547,24 @@ def run(chk):
 
 
 _S = "cnvlib/segmentation/__init__.py"
+_STRETCH = '''    # (Whole-genome methods: the edge chromosome's bins may all have been dropped)
+    if segments.chromosome.iat[0] == bins_chrom:
+        segments.data.iloc[0, segments.data.columns.get_loc("start")] = bins_start
+    if segments.chromosome.iat[-1] == cnarr.chromosome.iat[-1]:
+        segments.data.iloc[-1, segments.data.columns.get_loc("end")] = bins_end
+'''
 MUTANTS = [
+    dict(name="regress: last segment stretched whatever its chromosome", file=_S, old="    if segments.chromosome.iat[-1] == cnarr.chromosome.iat[-1]:\n", new="    if True:\n"),
+    dict(name="regress: first segment stretched whatever its chromosome", file=_S, old="    if segments.chromosome.iat[0] == bins_chrom:\n", new="    if len(segments):\n"),
+    # (not a breaker: per arm the two chromosomes coincide, and the property asks no stretch of the whole-array methods)
+    dict(name="twin: last segment compared with the first bin's chromosome", expect="silent", file=_S, old="    if segments.chromosome.iat[-1] == cnarr.chromosome.iat[-1]:\n", new="    if segments.chromosome.iat[-1] == bins_chrom:\n"),
+    dict(name="twin: edge chromosomes bound to names first", expect="silent", file=_S, old="    if segments.chromosome.iat[-1] == cnarr.chromosome.iat[-1]:\n", new="    last_chrom = cnarr.chromosome.iat[-1]\n    if last_chrom == segments.chromosome.iat[-1]:\n"),
     dict(name="by_arm splits one bin too early", file="skgenome/gary.py", old="                cmere_idx = gaps.argmax() + margin + 1\n", new="                cmere_idx = gaps.argmax() + margin\n"),
     dict(name="by_arm loses the q arm's first bin", file="skgenome/gary.py", old="                q_arm = subtable.index[cmere_idx:]", new="                q_arm = subtable.index[cmere_idx + 1:]"),
     dict(name="twin: distinct gene names through dict.fromkeys", expect="silent", file="cnvlib/segmentation/__init__.py", old="        subgenes = [g for g in pd.unique(bin_genes[bin_idx]) if g not in ignore]", new="        subgenes = list(dict.fromkeys(g for g in bin_genes[bin_idx] if g not in ignore))"),
-    dict(name="regress: chained store through the start property", file=_S, old='    segments.data.iloc[0, segments.data.columns.get_loc("start")] = bins_start\n', new="    segments.start.iat[0] = bins_start\n"),
-    dict(name="delete the end stretch", file=_S, old='    segments.data.iloc[-1, segments.data.columns.get_loc("end")] = bins_end\n', new=""),
-    dict(name="stretch last start instead of first", file=_S, old='    segments.data.iloc[0, segments.data.columns.get_loc("start")] = bins_start\n', new='    segments.data.iloc[-1, segments.data.columns.get_loc("start")] = bins_start\n'),
+    dict(name="regress: chained store through the start property", file=_S, old='        segments.data.iloc[0, segments.data.columns.get_loc("start")] = bins_start\n', new="        segments.start.iat[0] = bins_start\n"),
+    dict(name="delete the end stretch", file=_S, old='        segments.data.iloc[-1, segments.data.columns.get_loc("end")] = bins_end\n', new="        pass\n"),
+    dict(name="stretch last start instead of first", file=_S, old='        segments.data.iloc[0, segments.data.columns.get_loc("start")] = bins_start\n', new='        segments.data.iloc[-1, segments.data.columns.get_loc("start")] = bins_start\n'),
     dict(name="drop reset_index", file=_S, old="    cdata = cnarr.data.reset_index()", new="    cdata = cnarr.data"),
     dict(name="outer -> inner", file=_S, old='enumerate(iter_slices(cdata, segments.data, "outer", False))', new='enumerate(iter_slices(cdata, segments.data, "inner", False))'),
     dict(name="weight mean instead of sum", file=_S, old="            seg_wt = bin_weights[bin_idx].sum()", new="            seg_wt = bin_weights[bin_idx].mean()"),
@@ -605,13 +653,13 @@ MUTANTS = [
     dict(name="hmm squashes the smoothed log2", file="cnvlib/segmentation/hmm.py", old='    cnarr["log2"] = orig_log2\n', new=""),
     dict(name="twin: hmm state series bound to a variable first", expect="silent", file="cnvlib/segmentation/hmm.py", old="    segarr = squash_by_groups(\n        cnarr, pd.Series(states, index=cnarr.data.index), by_arm=True\n    )", new="    bin_index = cnarr.data.index\n    state_series = pd.Series(states, index=bin_index)\n    segarr = squash_by_groups(cnarr, state_series, by_arm=True)"),
     dict(name="hmm states on a fresh index", file="cnvlib/segmentation/hmm.py", old="cnarr, pd.Series(states, index=cnarr.data.index), by_arm=True", new="cnarr, pd.Series(states), by_arm=True"),
-    dict(name="seeded C03a: endpoints stretched after the aggregation", edits=[(_S, '    segments.data.iloc[0, segments.data.columns.get_loc("start")] = bins_start\n    segments.data.iloc[-1, segments.data.columns.get_loc("end")] = bins_end\n', ""),
-        (_S, "        gene=seg_genes, weight=seg_weights, depth=seg_depths\n    )\n    return segments\n", '        gene=seg_genes, weight=seg_weights, depth=seg_depths\n    )\n    segments.data.iloc[0, segments.data.columns.get_loc("start")] = bins_start\n    segments.data.iloc[-1, segments.data.columns.get_loc("end")] = bins_end\n    return segments\n')]),
+    dict(name="seeded C03a: endpoints stretched after the aggregation", edits=[(_S, _STRETCH, ""),
+        (_S, "        gene=seg_genes, weight=seg_weights, depth=seg_depths\n    )\n    return segments\n", "        gene=seg_genes, weight=seg_weights, depth=seg_depths\n    )\n" + _STRETCH + "    return segments\n")]),
     dict(name="seeded C03b: weight filter restarts from the unfiltered bins", edits=[(_S, '        weight_too_low = (filtered_cn["weight"] == 0).fillna(True)', '        weight_too_low = (cnarr["weight"] == 0).fillna(True)'),
         (_S, '        weight_too_low = (filtered_cn["weight"] < min_weight).fillna(True)', '        weight_too_low = (cnarr["weight"] < min_weight).fillna(True)'),
         (_S, "        filtered_cn = filtered_cn[~weight_too_low]", "        filtered_cn = cnarr[~weight_too_low]")]),
     dict(name="skip_low not applied", file=_S, old="    if skip_low:\n        filtered_cn = filtered_cn.drop_low_coverage(verbose=False)\n", new=""),
     dict(name="zero-weight bins kept", file=_S, old='        weight_too_low = (filtered_cn["weight"] == 0).fillna(True)', new='        weight_too_low = (filtered_cn["weight"] < 0).fillna(True)'),
     # (once listed as a twin; it is not: haar concatenates per-chromosome tables without renumbering, so the first label can repeat -- seeded C03g)
-    dict(name="stretch through .loc on the first label (labels repeat after haar's concat)", file=_S, old='    segments.data.iloc[0, segments.data.columns.get_loc("start")] = bins_start\n', new='    segments.data.loc[segments.data.index[0], "start"] = bins_start\n'),
+    dict(name="stretch through .loc on the first label (labels repeat after haar's concat)", file=_S, old='        segments.data.iloc[0, segments.data.columns.get_loc("start")] = bins_start\n', new='        segments.data.loc[segments.data.index[0], "start"] = bins_start\n'),
 ]
